@@ -4,9 +4,11 @@ import (
 	"context"
 
 	"github.com/glebziz/fs_db/internal/model"
+	"github.com/glebziz/fs_db/internal/verifhook"
 )
 
 func (u *UseCase) DeleteTx(_ context.Context, txId string) []model.File {
+	verifhook.At("core.deleteTx")
 	tx := u.txStore.Delete(txId)
 	if tx == nil {
 		return nil
